@@ -20,6 +20,9 @@
 (*   handler / inihalfopen / srchalfopen   after the script, within the      *)
 (*              deadline: the handler has not returned / the initiator's /   *)
 (*              the source's Recv loop has not ended   = Forwarder!AllDone   *)
+(*   twin       a second stream with the same cluster / shard metadata,       *)
+(*              opened while the first is up, did not reach the source / did  *)
+(*              not end when half-closed (streams are relayed independently)  *)
 (*   stuck      forwarder goroutines (startListener, forwardAcks,            *)
 (*              forwardReplicationMessages, Run) still alive after both      *)
 (*              peers were done and the deadline passed = Forwarder!NoStuck  *)
@@ -61,6 +64,11 @@ Next ==
                                        \cup (IF ~e.ini THEN {<<l, "inihalfopen", "final", 0>>} ELSE {})
                                        \cup (IF ~e.src THEN {<<l, "srchalfopen", "final", 0>>} ELSE {}))
                             /\ UNCHANGED <<sSent, iGot, iSent, sGot>>
+       \* TW: a second stream with the same metadata, opened while the first is up, reaches the source and ends when half-closed
+       [] e.ev = "Twin" -> /\ FlagAll(IF ~e.opened THEN {<<l, "twin", "notserved", 0>>} ELSE {})
+                           /\ UNCHANGED <<sSent, iGot, iSent, sGot>>
+       [] e.ev = "TwinEnd" -> /\ FlagAll(IF ~e.ok THEN {<<l, "twin", "halfopen", 0>>} ELSE {})
+                              /\ UNCHANGED <<sSent, iGot, iSent, sGot>>
        [] e.ev = "Census" -> /\ FlagAll(IF e.stuck > 0 THEN {<<l, "stuck", e.kinds, e.stuck>>} ELSE {})
                              /\ UNCHANGED <<sSent, iGot, iSent, sGot>>
        [] OTHER -> UNCHANGED <<sSent, iGot, iSent, sGot>>
